@@ -818,7 +818,8 @@ def mech_key(case, symptom, extra=None):
             return "memory/store/%s" % info["store"] if extra.get("memory") else "memory/load/%s" % info["load"]
         return "memory/%s-%s/%s" % (info["store"], info["load"], symptom)
     if fam == "cfg":
-        sym = "wrong-result" if symptom == "wrong" else symptom
+        # value, memory and external-trace mismatches are one symptom here: the wrong path was taken
+        sym = "wrong-result" if symptom in ("wrong", "external-calls") else symptom
         if info.get("form") == "ssa":
             # SSA-form programs: the phi lowering is the suspect unless the same skeleton also fails without phis (see attribute())
             phi = info.get("phi", "plain")
@@ -872,7 +873,7 @@ def judge(p, pr, res, findings, base_order):
         if st == "rejected":
             p.count("modules_rejected")
             p.count("rejected_" + pr["why"])
-            p.collect("rejections", "%s | %s" % (c0["mech"], unsupported_token(pr["exc"])))
+            p.collect("rejections", "%s | %s" % ("op" if c0["fam"] == "op" else c0["mech"], unsupported_token(pr["exc"])))
             cls_count("rejected")
             p.outcome(("rejected", c0["mech"], unsupported_token(pr["exc"])))
             return False
@@ -1076,11 +1077,11 @@ def attribute(findings):
     bad = set()
     for f in findings:
         info = f["case"].get("info", {})
-        if f["case"]["fam"] == "cfg" and info.get("form") != "ssa":
+        if f["case"]["fam"] == "cfg" and info.get("form") != "ssa" and f["key"].startswith("relooper/"):
             bad.add((repr(info.get("skel")), f["key"].rsplit("/", 1)[-1]))
     for f in findings:
         info = f["case"].get("info", {})
-        if f["case"]["fam"] == "cfg" and info.get("form") == "ssa":
+        if f["case"]["fam"] == "cfg" and info.get("form") == "ssa" and f["key"].startswith("ssa/"):
             sym = f["key"].rsplit("/", 1)[-1]
             if (repr(info.get("skel")), sym) in bad:
                 f["key"] = "relooper/%s/%s" % (info.get("cls", "?"), sym)
@@ -1209,7 +1210,7 @@ def cases_of(item, tier, seed):
         n, lo, hi, mode = item[1:]
         sk = None if hi is None else (lo, hi)
         if mode == "full":
-            return list(G.cfg_cases(n, quick, G.CFG_VARIANTS_Q if quick else 18, True, sk))
+            return list(G.cfg_cases(n, quick, G.CFG_VARIANTS_Q if (quick or n >= 4) else 18, True, sk))
         # one rotation per skeleton, selected by the seed (every seed explores its slice completely)
         return list(G.cfg_cases(n, quick, 12, False, sk, pick=seed))
     if kind == "c":
